@@ -457,6 +457,13 @@ const CC0: [u32; 4] = konst::iter::collect_const!(u32 => &[1u32, 2, 3, 4, 5, 6],
 const CC1: [&u8; 0] = konst::iter::collect_const!(&u8 => &[] as &[u8], rev());
 const CC2: [(usize, char); 4] = konst::iter::collect_const!((usize, char) => string::char_indices("a個ñ🙂"), rev());
 const CC3: [&str; 2] = konst::iter::collect_const!(&str => string::split("a,b,,", ","), take_while(|s| !s.is_empty()), chain_check());
+const R0: [u8; 3] = konst::iter::collect_const!(u8 => 253u8..=255);
+const R1: [i8; 4] = konst::iter::collect_const!(i8 => -128i8..-124, rev());
+const R2: [char; 4] = konst::iter::collect_const!(char => '\u{D7FE}'..='\u{E001}');
+const R3: [u8; 0] = konst::iter::collect_const!(u8 => 5u8..2);
+const R4: [usize; 3] = konst::iter::collect_const!(usize => (usize::MAX - 4).., take(3));
+const R5: [u128; 2] = konst::iter::collect_const!(u128 => &(u128::MAX - 1..=u128::MAX));
+const R6: [i64; 3] = konst::iter::collect_const!(i64 => i64::MIN..=i64::MIN + 2, rev());
 const SC0: &str = string::str_concat!(&["a", "ñ", "", "個🙂"]);
 const SC1: &str = string::str_concat!(&['a', '🙂', '\0']);
 const SJ0: &str = string::str_join!("🙂", &["a", "", "ñ"]);
@@ -471,8 +478,10 @@ const fn const_forms() -> u64 {
     assert!(CC0[0] == 0 && CC0[1] == 1 && CC0[2] == 2 && CC0[3] == 0 && CC3.len() == 2);
     assert!(CC2[0].0 == 6 && CC2[3].1 == 'a');
     assert!(SC0.len() == 10 && SC1.len() == 6 && SJ0.len() == 11 && SJ1.len() == 2 && SJ2.is_empty());
+    assert!(R0[0] == 253 && R0[2] == 255 && R1[0] == -125 && R1[3] == -128 && R2[1] == '\u{D7FF}' && R2[2] == '\u{E000}' && R3.len() == 0);
+    assert!(R4[0] == usize::MAX - 4 && R4[2] == usize::MAX - 2 && R5[1] == u128::MAX && R6[0] == i64::MIN + 2 && R6[2] == i64::MIN);
     assert!(FI0.len() == 4 && FI1.len() == 12 && SL0[4] == 5 && SL1.is_empty() && SL2.is_empty());
-    14
+    21
 }
 
 const N_SLICING: u64 = slicing_u32();
@@ -567,7 +576,9 @@ def run(out, tier, seed):
     def comp(job):
         src, extra = job
         if extra:
-            return cx.compile(src, out=src[:-3] + ".extra.bin", nightly=True, extra=["-Zextra-const-ub-checks"], timeout=3600)
+            nk, nd = kv.konst_rlibs("dbg", nightly=True)
+            rc, so, se = kv.rustc_compile(src, src[:-3] + ".extra.bin", nk, nd, nightly=True, extra=["-Zextra-const-ub-checks"], timeout=3600)
+            return rc, se, src[:-3] + ".extra.bin"
         return cx.compile(src, timeout=3600)
     with concurrent.futures.ThreadPoolExecutor(max_workers=kv.NCPU) as ex:
         res = list(ex.map(comp, jobs))
